@@ -28,6 +28,8 @@ type CheckCfg struct {
 	Workers       int                 `json:"workers"`
 	Module        string              `json:"module"`
 	Shared        map[string][]string `json:"shared"`         // rel pkg dir -> names of /verif/harness/_shared/<name>.go injected into that package (package clause rewritten)
+	FilesSymbolic []string            `json:"files_symbolic"` // harness files (relative to /verif/harness and /repo) injected in the symbolic run only
+	FilesNative   []string            `json:"files_native"`   // ... and in the native replay only (same functions, native implementation)
 	NativeOverlay map[string]string   `json:"native_overlay"` // repo-relative file -> /verif/harness-relative replacement, used by the native replay only (native counterpart of a symbolic-run stub)
 }
 
@@ -202,6 +204,13 @@ func loadProgram(cc *CheckCfg, workDir string) (*ssa.Program, map[string]*ssa.Pa
 			pats = append(pats, h.Pkg)
 		}
 	}
+	for _, f := range cc.FilesSymbolic {
+		data, err := os.ReadFile(filepath.Join(verifDir, "harness", f))
+		if err != nil {
+			return nil, nil, nil, nil, err
+		}
+		overlay[filepath.Join(repoDir, f)] = data
+	}
 	cfg := &packages.Config{
 		Mode:    packages.LoadAllSyntax,
 		Dir:     repoDir,
@@ -214,6 +223,9 @@ func loadProgram(cc *CheckCfg, workDir string) (*ssa.Program, map[string]*ssa.Pa
 	}
 	for rf, hf := range cc.NativeOverlay { // native replay only
 		overlayFiles[filepath.Join(repoDir, rf)] = filepath.Join(verifDir, "harness", hf)
+	}
+	for _, f := range cc.FilesNative {
+		overlayFiles[filepath.Join(repoDir, f)] = filepath.Join(verifDir, "harness", f)
 	}
 	var errs []string
 	packages.Visit(initial, nil, func(p *packages.Package) {
@@ -696,6 +708,9 @@ func runReplayOnly(cc *CheckCfg, o *opts, workDir string) int {
 	}
 	for rf, hf := range cc.NativeOverlay {
 		overlayFiles[filepath.Join(repoDir, rf)] = filepath.Join(verifDir, "harness", hf)
+	}
+	for _, f := range cc.FilesNative {
+		overlayFiles[filepath.Join(repoDir, f)] = filepath.Join(verifDir, "harness", f)
 	}
 	rel := relOfPkg(rp.Pkg)
 	var names []string
